@@ -106,8 +106,12 @@ def sensitivity(name, fam, consts, stateful=False, max_cases=6, per_field=6, ski
         with open(tr) as fh:
             lines = [json.loads(l) for l in fh if l.strip()]
         summ, base_vs, _ = validate_trace(work, trace_module, tcfg, tr, work.path("base.verdicts"))
-        bad_lines = {v["line"] for v in base_vs}
-        groups = [g for g in groups_of(lines, stateful) if not any((i + 1) in bad_lines for i in g)]
+        groups = groups_of(lines, stateful)
+        # verdicts the unchanged trace already has (known findings), relative to the start of their group
+        base_of = {}
+        for gi, g in enumerate(groups):
+            lo, hi = g[0] + 1, g[-1] + 1
+            base_of[gi] = {(v["line"] - lo, v["rule"], v["label"]) for v in base_vs if lo <= v["line"] <= hi}
         # candidate corruptions, grouped by (event type, generalised field)
         cands = {}
         for gi, g in enumerate(groups):
@@ -147,15 +151,16 @@ def sensitivity(name, fam, consts, stateful=False, max_cases=6, per_field=6, ski
                             setpath(ev, p, cval)
                         fh.write(json.dumps(ev) + "\n")
                         ln += 1
-                    spans[n] = (start, ln)
+                    spans[n] = (start, ln, gi)
             try:
                 s, vs, _ = validate_trace(work, trace_module, tcfg, path, path + ".verdicts")
             except Undecided as e:
                 return {n: "crash" for n in spans} if len(items) == 1 else \
                     {k: v for it in items for k, v in run_shard([it]).items()}
             hit = {}
-            for n, (a, b) in spans.items():
-                hit[n] = "detected" if any(a <= v["line"] <= b for v in vs) else "silent"
+            for n, (a, b, gi) in spans.items():
+                got = {(v["line"] - a, v["rule"], v["label"]) for v in vs if a <= v["line"] <= b}
+                hit[n] = "detected" if got != base_of[gi] else "silent"
             return hit
 
         res = {}
